@@ -7,6 +7,7 @@ loaded and run - same outcome class, same program structure (result names, order
 results.
 """
 import copy
+import os
 import random
 
 import numpy
@@ -19,7 +20,7 @@ LEVEL = "exploration"
 RULE = ("exhaustive: 25 EEMS 2.0 names x {with, without NewFieldName} x {with, without OutFileName} x {bare, 'Result =' form}; random: "
         "EEMS models of 2-12 commands written in 2.0 syntax (any graph shape, optionally mixed with MPilot-style commands) in all "
         "W-SYNTAX layouts; distinct by (set of 2.0 names used, naming styles, mixed?, layout style)")
-REQUIRED_COUNTERS = ["repeated_loads_compared", "names_checked", "translations_compared", "result_sets_compared", "restricted_library_histories"]
+REQUIRED_COUNTERS = ["repeated_loads_compared", "cli_runs_of_eems2_files", "names_checked", "translations_compared", "result_sets_compared", "restricted_library_histories"]
 EXHAUSTIVE_NOTE = "all 25 mapped names x 8 naming/argument forms in both tiers"
 ASSUMPTIONS = ["the harness's name table restates the mapping by meaning (MEANTOMID is the fuzzy mean-to-mid conversion, ORNEG the minimum)",
                "2.0 commands with neither a result name nor NewFieldName/InFieldName, and OutFileName on MPilot-style commands inside a 2.0 file, are don't-care"]
@@ -193,6 +194,27 @@ def run_case(ctx, case):
     if r2 != r3:
         ctx.fail("results-differ", dict(detail, v2=repr(r2)[:300], translated=repr(r3)[:300]))
         return
+    if case["rseed"] % 5 == 1 and not isinstance(r2, tuple):
+        # the same 2.0 file through the command-line tool, whatever the file is called
+        from click.testing import CliRunner
+        from mpilot.cli.mpilot import main
+        d3 = ctx.scratch()
+        models.write_table(model["table"], d3)
+        fname = "model" + ["", ".mpt", ".eem", ".txt", ".eems", ".MPT"][(case["rseed"] // 5) % 6]
+        with open(os.path.join(d3, fname), "w", encoding="utf-8") as fh:
+            fh.write(t2)
+        try:
+            res = CliRunner(mix_stderr=False).invoke(main, ["eems-csv", os.path.join(d3, fname)])
+        except TypeError:
+            res = CliRunner().invoke(main, ["eems-csv", os.path.join(d3, fname)])
+        ctx.count("cli_runs_of_eems2_files")
+        if res.exit_code != 0:
+            try:
+                err_text = res.stderr
+            except Exception:
+                err_text = res.output
+            ctx.fail("eems2-file-runs-through-the-api-but-not-through-the-tool:%s" % (os.path.splitext(fname)[1] or "no-extension"), dict(detail, exit=res.exit_code, stderr=err_text[-300:]))
+            return
     if case["rseed"] % 2 == 0:
         # the very same 2.0 file loaded again in this process translates to the very same program
         ctx.count("repeated_loads_compared")
